@@ -209,6 +209,7 @@ static bool decode_utf8(const vector<UINT8> &in_data, deque<int> &out_data)
          // invalid UTF-8 sequence
          return(false);
       }
+      const int len = cnt + 1;
 
       while (  cnt-- > 0
             && idx < in_data.size())
@@ -226,6 +227,21 @@ static bool decode_utf8(const vector<UINT8> &in_data, deque<int> &out_data)
       if (cnt >= 0)
       {
          // short UTF-8 sequence
+         return(false);
+      }
+
+      // an overlong form would be written back in its shortest form, that
+      // is as different bytes: treat it as not being UTF-8
+      if (  ch < 0x80
+         || (  len > 2
+            && ch < 0x800)
+         || (  len > 3
+            && ch < 0x10000)
+         || (  len > 4
+            && ch < 0x200000)
+         || (  len > 5
+            && ch < 0x4000000))
+      {
          return(false);
       }
       out_data.push_back(ch);
